@@ -2,9 +2,11 @@
 package c16
 
 import (
+	"crypto/rsa"
 	"crypto/x509"
 	"errors"
 	"fmt"
+	"math/big"
 	"sync"
 	"time"
 
@@ -414,6 +416,26 @@ func bases() []Base {
 	return out
 }
 
+// sameModulus derives from a genuine RSA key the (equally genuine) key for the
+// same modulus and public exponent e; nil if e is not invertible.
+func sameModulus(own *rsa.PrivateKey, e int) *rsa.PrivateKey {
+	if own.E == e || len(own.Primes) != 2 {
+		return nil
+	}
+	one := big.NewInt(1)
+	phi := new(big.Int).Mul(new(big.Int).Sub(own.Primes[0], one), new(big.Int).Sub(own.Primes[1], one))
+	d := new(big.Int).ModInverse(big.NewInt(int64(e)), phi)
+	if d == nil {
+		return nil
+	}
+	k := &rsa.PrivateKey{PublicKey: rsa.PublicKey{N: new(big.Int).Set(own.N), E: e}, D: d, Primes: []*big.Int{new(big.Int).Set(own.Primes[0]), new(big.Int).Set(own.Primes[1])}}
+	if k.Validate() != nil {
+		return nil
+	}
+	k.Precompute()
+	return k
+}
+
 func localSignerCases(r *core.Run) {
 	// a local signer cannot be constructed from a key that is not the leaf's
 	for _, k := range pki.SupportedKinds {
@@ -432,6 +454,29 @@ func localSignerCases(r *core.Run) {
 				r.Count("local-signer-rejected", 1)
 			}
 			r.Nontrivial(desc)
+		}
+		if own, ok := ch.Keys[0].Priv.(*rsa.PrivateKey); ok {
+			// a genuine RSA key with the leaf's modulus but another public exponent
+			for _, e := range []int{3, 5, 17, 257, 65539} {
+				twin := sameModulus(own, e)
+				if twin == nil {
+					continue
+				}
+				r.Eval(1)
+				var s signature.Signer
+				var err error
+				p := core.Guard(func() { s, err = signature.NewLocalSigner(ch.Certs, twin) })
+				desc := fmt.Sprintf("NewLocalSigner(leaf %s, RSA key with the leaf's modulus and exponent %d)", k, e)
+				if p != nil {
+					r.Violation("panic:NewLocalSigner", desc+" panicked: "+p.Value, desc)
+				} else if err == nil || s != nil {
+					r.Violation("accepted:NewLocalSigner:same-modulus-other-exponent", desc+" succeeded", desc)
+				} else {
+					r.Count("local-signer-rejected", 1)
+					r.Count("same-modulus-twins-rejected", 1)
+				}
+				r.Nontrivial(desc)
+			}
 		}
 		r.Eval(1)
 		if s, err := signature.NewLocalSigner(ch.Certs, ch.Keys[0].Priv); err != nil || s == nil {
